@@ -283,6 +283,28 @@ def extra_stage(ctx, driver, stats):
             bad += 1
             ctx.failures.append(Failure("D", dict(kind="fresh-process", spec=dict(label=stem, ext=ext), lines=[], expect=[]), None,
                                         f"fresh process output for {stem}.{ext} differs from the repo's expected file"))
+    # model breadth: how many of the repo's decompiler fixtures does the Lean model reproduce byte for byte (both languages)?
+    fxb = L.fixture_bytes()
+    lines = []
+    for stem, l, n, el, ej in fxb:
+        lines += [f"lscr lingo {hx(l)} {hx(n)}", f"lscr js {hx(l)} {hx(n)}"]
+    outs = driver.ask(lines)
+    both = 0
+    for i, (stem, l, n, el, ej) in enumerate(fxb):
+        okl = el is None or outs[2 * i] == canon(el)
+        okj = ej is None or outs[2 * i + 1] == canon(ej)
+        both += 1 if (okl and okj) else 0
+    stats["model_reproduces_fixtures"] = f"{both}/{len(fxb)}"
+    gs = L.game_scripts()
+    glines = []
+    for lab, l, n in gs:
+        glines += [f"lscr lingo {hx(l)} {hx(n)}", f"lscr js {hx(l)} {hx(n)}"]
+    gouts = driver.ask(glines)
+    gok = 0
+    for i, (lab, l, n) in enumerate(gs):
+        pl, pj = L.py_lingo(l, n), L.py_js(l, n)
+        gok += 1 if (gouts[2 * i] == canon(pl if pl is not None else "error") and gouts[2 * i + 1] == canon(pj if pj is not None else "error")) else 0
+    stats["model_reproduces_game_scripts"] = f"{gok}/{len(gs)}"
     stats["fresh_processes"] = len(procs)
     stats["fresh_process_mismatches"] = bad
     stats["opcode_histogram"] = dict(sorted(getattr(cases, "hist", {}).items(), key=lambda kv: -kv[1])[:80])
